@@ -77,6 +77,11 @@ func c13Menu() map[string]c13Up {
 		"M": {Name: "M", Backend: "m", User: "um@users.test", YAML: func(e map[string]string) string {
 			return svc("svcm", `lit2\.sso\.test`, e["m"], "rewrite", addr("um@users.test"), "")
 		}},
+		// a rewrite whose pattern does not span the whole Host: what follows the match (the port) is carried
+		// into the backend address, as the documented substitution does
+		"P": {Name: "P", Backend: "*port", User: "up@users.test", YAML: func(e map[string]string) string {
+			return svc("svcp", `^portal\.sso\.test`, "127.0.0.1", "rewrite", addr("up@users.test"), "")
+		}},
 		// an overlapping rewrite with a fixed backend
 		"S": {Name: "S", Backend: "s", User: "us@users.test", YAML: func(e map[string]string) string {
 			return svc("svcs", `^svc-.*\.sso\.test$`, e["s"], "rewrite", addr("us@users.test"), "")
@@ -95,7 +100,7 @@ func c13Run(c *fw.Ctx) {
 	vtime.SetManual(harness.T0)
 	defer vtime.SetReal()
 	menu := c13Menu()
-	sets := [][]string{{"A", "B"}, {"A", "C"}, {"A", "R", "S"}, {"S", "R", "A"}, {"B", "S"}, {"R", "B", "A"}, {"S", "T"}, {"T", "R", "S"}, {"U", "W"}, {"W", "U"}, {"G", "W"}, {"W", "L"}, {"L", "W"}, {"M", "A"}}
+	sets := [][]string{{"A", "B"}, {"A", "C"}, {"A", "R", "S"}, {"S", "R", "A"}, {"B", "S"}, {"R", "B", "A"}, {"S", "T"}, {"T", "R", "S"}, {"U", "W"}, {"W", "U"}, {"G", "W"}, {"W", "L"}, {"L", "W"}, {"M", "A"}, {"P", "A"}}
 	if c.Thorough() {
 		sets = append(sets, []string{"A", "B", "C"}, []string{"C", "R"}, []string{"S", "A", "B"}, []string{"R", "S", "C"}, []string{"B", "R", "S"})
 	}
@@ -141,7 +146,9 @@ func c13Run(c *fw.Ctx) {
 		port := e.Backends["p"].Addr()[strings.LastIndex(e.Backends["p"].Addr(), ":")+1:]
 		hosts := []string{"a.sso.test", "A.SSO.TEST", "a.sso.test:443", "b.sso.test", "c.sso.test:8443", "c.sso.test", "svc-" + port + ".sso.test", "svc-x.sso.test", "svc-static.sso.test", "SVC-" + port + ".sso.test", "xsvc-" + port + ".sso.test.evil", "nomatch.test", "",
 			"svc-" + port + ".sso.test:8443", "svc-static.sso.test:8080", "127.0.0.1:" + port, "b.sso.test:80",
-			"x.admin.sso.test", "g.sso.test", "G.sso.test", "other.sso.test", "lit.sso.test", "lit2.sso.test", "lit2.sso.test:8443", "xlit2.sso.test.evil"}
+			"x.admin.sso.test", "g.sso.test", "G.sso.test", "other.sso.test", "lit.sso.test", "lit2.sso.test", "lit2.sso.test:8443", "xlit2.sso.test.evil",
+			// a trailing dot makes another Host; the pattern that does not span the Host, with the backend's port after it
+			"a.sso.test.", "svc-" + port + ".sso.test.", "portal.sso.test:" + port}
 		host := hosts[x.Choose("host", len(hosts))]
 		// who asks: nobody (no cookie), or the user of upstream k with a cookie minted for host m
 		who := x.Choose("cookie-user", len(ce.ups)+1)
@@ -261,6 +268,20 @@ func c13Run(c *fw.Ctx) {
 		if wantBackend == "*port" {
 			wantBackend = "p"
 		}
+		// for a rewrite route: the backend address the documented substitution (every match of `from` in the
+		// Host replaced by `to`) gives; if that is a backend that exists, the request has to get there
+		rewriteTargetExists := true
+		if rr, ok := want.Route.(*proxy.RewriteRoute); ok {
+			rewriteTargetExists = false
+			addr := rr.FromRegex.ReplaceAllString(host, rr.ToTemplate.Opaque)
+			for n, b := range e.Backends {
+				if b.Addr() == addr {
+					rewriteTargetExists = true
+					wantBackend = n
+				}
+			}
+			desc["reference_rewritten_backend_address"] = addr
+		}
 		for _, h := range resp.Hits {
 			if h.Backend != wantBackend {
 				viol("wrong-backend/"+want.Service, fmt.Sprintf("Host %q belongs to %s (backend %s) but backend %s was reached", host, want.Service, wantBackend, h.Backend))
@@ -285,8 +306,9 @@ func c13Run(c *fw.Ctx) {
 			default:
 				c.Res.Count("positive_served_by_right_upstream", 1)
 			}
-		} else if admissible && !lenient && resp.Status == 502 {
-			// routed to the right upstream, whose rewritten backend address does not exist
+		} else if admissible && !lenient && resp.Status == 502 && !rewriteTargetExists {
+			// routed to the right upstream, whose rewritten backend address (the documented substitution applied
+			// to this Host) does not exist
 			c.Res.Count("routed_to_an_unreachable_rewrite_target", 1)
 		} else if admissible && !lenient {
 			viol("own-session-refused/"+want.Service, fmt.Sprintf("a valid session of %s for host %q was answered %d", want.Service, host, resp.Status))
@@ -320,8 +342,8 @@ func init() {
 	fw.Register(&fw.Check{
 		ID:    "C13",
 		Level: "exploration",
-		Rule: "full product over upstream sets of 2-3 routes drawn from {simple a.sso.test, simple b.sso.test with provider_slug, simple with port, rewrite ^svc-(\\d+)\\.sso\\.test$ -> 127.0.0.1:$1, overlapping rewrite with a fixed backend, simple host that also matches that rewrite, a rewrite not anchored at its start, a case-insensitive catch-all rewrite, a simple route with a group rule only, a rewrite whose pattern is an anchored pure literal listed before / after the catch-all, a rewrite whose pattern is an unanchored pure literal} in several orders, loaded through YAML -> SetUpstreamConfigs -> proxy.New with one recording backend per target; " +
-			"Host values {exact, upper-case, with port, port-qualified route with and without port, matching both rewrites, matching only the second, upper-case rewrite host, look-alike, matching none, empty, the literal patterns' host exactly / with a port / inside a longer name} x cookie {none, user of each upstream} x cookie host binding {this host, two simple hosts, a sibling host of the same rewrite pattern, two more} x cookie slug {own, target's} x X-Forwarded-Host {absent, the host the cookie is bound to} x {the cookie was / was not first presented on the host it is bound to}; " +
+		Rule: "full product over upstream sets of 2-3 routes drawn from {simple a.sso.test, simple b.sso.test with provider_slug, simple with port, rewrite ^svc-(\\d+)\\.sso\\.test$ -> 127.0.0.1:$1, overlapping rewrite with a fixed backend, simple host that also matches that rewrite, a rewrite not anchored at its start, a case-insensitive catch-all rewrite, a simple route with a group rule only, a rewrite whose pattern is an anchored pure literal listed before / after the catch-all, a rewrite whose pattern is an unanchored pure literal, a rewrite whose pattern stops before the Host's port (which the substitution carries into the backend address)} in several orders, loaded through YAML -> SetUpstreamConfigs -> proxy.New with one recording backend per target; " +
+			"Host values {exact, upper-case, with port, port-qualified route with and without port, matching both rewrites, matching only the second, upper-case rewrite host, look-alike, matching none, empty, the literal patterns' host exactly / with a port / inside a longer name, configured hosts with a trailing dot} x cookie {none, user of each upstream} x cookie host binding {this host, two simple hosts, a sibling host of the same rewrite pattern, two more} x cookie slug {own, target's} x X-Forwarded-Host {absent, the host the cookie is bound to} x {the cookie was / was not first presented on the host it is bound to}; " +
 			"oracle = reference router over the order in which the configuration resolved the upstreams (exact simple match first, else first matching rewrite; backend = substitution), 421 and no backend for no route, policy/cookie binding/sign-in provider of that upstream only, a session for another host never accepted; " +
 			"distinct_nontrivial = distinct (upstream set, host class, cookie user, status, backends hit)",
 		Assumptions:    []string{"case and port variants of a configured simple host may either route to that upstream or get 421 (the statement says exact match)"},
